@@ -344,6 +344,12 @@ def run_walk_op(op):
     try:
         p = new_parser({"builder": op["builder"], "ns": True, "strict": False})
         tree = p.parse(_doc_text(op))
+    except Exception as e:
+        # the parse that provides the tree raised (e.g. an assertion inside tree
+        # construction for some inputs): nothing to walk; a brand-new object does
+        # the same, so this is an outcome to compare, not a walker failure
+        return ("setup_raise", type(e).__name__, str(e)[:200])
+    try:
         cls = treewalkers.getTreeWalker(walker_name(op["builder"]))
         w = cls(tree)
         a = canon_tokens(list(w))
@@ -715,7 +721,9 @@ def execute(case):
         if kind == "walk":
             out = run_walk_op(op)
             trace.append(("walk", out[0], out[2:] if out[0] == "ok" else out[1:]))
-            if out[0] != "ok" or not (out[2] and out[3]):
+            if out[0] == "setup_raise":
+                pass
+            elif out[0] != "ok" or not (out[2] and out[3]):
                 failure = ("walker", "op %d: walking the same tree twice gives different streams or raises: %s" % (i, brief(out[:1] + out[2:])))
                 break
             if pristine_all or after_cold:
@@ -723,8 +731,8 @@ def execute(case):
                 pr = ZYGOTE.request("walk|" + json.dumps(op, sort_keys=True), {"kind": "walk", "op": op})
                 P["pristine_reference_used"] += 1
                 if pr != out:
-                    failure = ("pristine", "op %d (walk): this process gives a token stream different from a pristine interpreter: %s"
-                               % (i, first_diff(pr[1] if pr[0] == "ok" else pr, out[1])))
+                    failure = ("pristine", "op %d (walk): this process gives %s, a pristine interpreter %s"
+                               % (i, brief(out, 200), brief(pr, 200)))
                     break
             continue
         oi = op["obj"]
